@@ -4,6 +4,7 @@ import GraphrsModel.ObsSP
 import GraphrsModel.ObsCen
 import GraphrsModel.ObsComp
 import GraphrsModel.ObsClu
+import GraphrsModel.ObsComm
 open Graphrs
 
 /-- `store <specs> <universe> <w> <ops>`: the concrete model's and the specification's
@@ -38,6 +39,8 @@ def handle (line : String) : String :=
       | "eig" => run handleEig
       | "comp" => run handleComp
       | "clu" => run handleClu
+      | "mod" => run handleMod
+      | "louv" => run handleLouv
       | _ => "bad-request command"
 
 partial def loop (h : IO.FS.Stream) (out : IO.FS.Stream) : IO Unit := do
